@@ -8,6 +8,8 @@
  G4 POOL-MAP-INJECTIVE    pool_counter maps every Pool variant to a distinct field.
  G5 TOTAL-COMPLETE        total_used loads exactly the fields pool_counter can return (no pool escapes the sum).
  G6 RELEASE-LOWERS        release computes its new value with a subtraction of `bytes` from the loaded value.
+ G7 RESERVE-ONLY-SERIALISED  any other function of the budget that writes a usize atomic runs under the allocation mutex (its own
+                          or, at every call site, its caller's).
 Interleavings themselves are NOT decided.
 """
 from model import CheckError, operand_place, place_fields
@@ -115,3 +117,39 @@ def run(ctx):
     subs = [c for c in r.calls if c.name.endswith("saturating_sub") or c.name.endswith("checked_sub") or c.name.endswith("wrapping_sub")]
     subst = any(s[0] == "=" and s[2][0] == "bin" and s[2][1].startswith("Sub") for b in r.blocks for s in b["s"])
     ctx.ob("G6.RELEASE-LOWERS", "release", bool(subs) or subst, "release subtracts from the loaded value", r.loc())
+    # G7 RESERVE-ONLY-SERIALISED: G1 argues about allocate's own body.  Any other function of the budget that writes a usize
+    # atomic (a helper that reserves on allocate's behalf) is covered only if every call to it sits under a live mutex guard of its
+    # caller, or it takes the mutex itself before its loads; release (lowers, G6) and reset (administrative) are the two other writers.
+    WR = ("compare_exchange", "compare_exchange_weak", "fetch_add", "fetch_update", "store", "swap")
+    writers = {}
+    for f in m.fns.values():
+        if not f.id.startswith("memory::budget::"):
+            continue
+        ws = [c for c in f.calls if "Atomic" in c.full and "<usize>" in c.full and c.name.rsplit("::", 1)[-1] in WR]
+        if ws:
+            host = f if f.kind != "closure" else m.fns.get(f.parent, f)
+            writers.setdefault(host.id, (host, []))[1].extend(ws)
+    ctx.floor("G7.atomic_writers", len(writers), 3)
+    lock_name = lambda c: c.name.endswith("Mutex::<R, T>::lock") or c.name.endswith("Mutex::<T>::lock")
+    for fid, (f, ws) in sorted(writers.items()):
+        tail = fid.rsplit("::", 1)[-1]
+        if tail in ("allocate", "release", "reset"):
+            ctx.ob("G7.RESERVE-ONLY-SERIALISED", tail, True, "decided by %s" % {"allocate": "G1/G2", "release": "G6 (lowers only)", "reset": "administrative reset"}[tail], f.loc())
+            continue
+        own = [l for l in f.calls if lock_name(l) and all(f.dominates(l.bb, w.bb) for w in ws)]
+        sites = [(g, c) for g in m.fns.values() for c in g.calls if c.name == fid]
+        uncovered = []
+        for g, c in sites:
+            cov = False
+            for l in g.calls:
+                if lock_name(l) and g.dominates(l.bb, c.bb) and l.bb != c.bb:
+                    gl = l.dest[0]
+                    if not any(b["t"][0] == "drop" and b["t"][1][0] == gl and g.dominates(bb, c.bb) for bb, b in enumerate(g.blocks)):
+                        cov = True
+            if not cov:
+                uncovered.append((g, c))
+        ok7 = bool(own) or (bool(sites) and not uncovered)
+        ctx.ob("G7.RESERVE-ONLY-SERIALISED", tail, ok7, "serialised (own lock or every call site under the caller's guard)" if ok7 else
+               "%s updates a budget counter with %s and is called outside the allocation mutex (%s): its limit check and its update are not "
+               "atomic with those of concurrent allocations in other pools, so the total can exceed the limit"
+               % (tail, ws[0].name.rsplit("::", 1)[-1], uncovered[0][1].loc() if uncovered else "no caller"), ws[0].loc())
